@@ -40,19 +40,19 @@ def mk(width, big, ep, r):
 def targets(tier):
     if tier == "quick":
         rcfg = [(1, False, 1), (8, True, 3), (12, False, 3), (12, True, 15)]
-        ccfg = [(20, True, 2), (16, False, 1), (32, True, 5), (32, False, 5)]
+        ccfg = [(20, True, 2), (32, False, 5)]
     else:
         rcfg = [(1, False, 1), (1, True, 1), (8, True, 3), (8, False, 3), (9, True, 4), (12, False, 3), (12, True, 15),
                 (16, False, 1), (20, True, 2)]
         ccfg = [(7, True, 0), (16, True, 1), (20, False, 2), (24, True, 7), (32, True, 5), (32, False, 5), (33, False, 9),
-                (64, True, 14), (64, False, 14), (128, True, 6)]
+                (64, True, 14), (64, False, 14)]
     return [mk(w, b, e, True) for (w, b, e) in rcfg] + [mk(w, b, e, False) for (w, b, e) in ccfg]
 
 
 def traces(target, rng, tier):
     p = target.params; W = p["width"]; ep = p["ep"]
     nb = (W + 7) // 8
-    n = 16 if tier == "quick" else 120
+    n = 16 if tier == "quick" else 60
     out = []
     def cyc(sig, **k):
         c = dict(signal=sig, endpoint=ep, is_in=0, ready_for_response=0, new_token=0, ack=0, tx_ready=0)
@@ -171,7 +171,7 @@ LEVEL_TEXT = ("Machine-checked proof. (1) For every width W >= 1, both endiannes
               "come from a bit-covering finite set and whose tokenizer.endpoint is the endpoint's number or a neighbour (certified product "
               "reachability), giving C17_<cfg>: netlist = specification on those traces under the environment assumption. "
               "(3) Not proved, checked by correspondence on simulator traces: full-range signal values and endpoint numbers, widths up to "
-              "32 (thorough: 128).")
+              "32 (thorough: 64).")
 LEVEL_NOTE = ("Trusted: Coq kernel + vm_compute, Amaranth elaboration, nir2coq.py/Netlist.v (validated each run against pysim). "
               "The netlist tie restricts data VALUES (signal, tokenizer.endpoint) to finite alphabets because 2^(W+9) input words per state "
               "are out of reach for explicit-state closure; trace length, strobe timing and tx.ready patterns are unrestricted. "
